@@ -106,3 +106,28 @@ class Prop:
     assumptions: list = field(default_factory=list)
     predicates: dict = field(default_factory=dict)   # name -> fn(case) -> bool, for known findings
     level: str = "exploration"
+
+
+def _snap(v):
+    import numpy as _np
+
+    if isinstance(v, _np.ndarray):
+        return (v.shape, str(v.dtype), v.tobytes())
+    if hasattr(v, "__dict__") and not isinstance(v, type):
+        # an estimator: its public attributes (private ones may cache)
+        return {k: _snap(x) if isinstance(x, _np.ndarray) else repr(x) for k, x in sorted(vars(v).items()) if not k.startswith("_")}
+    return repr(v)
+
+
+@contextmanager
+def unchanged(label, **objs):
+    """the caller's arrays and the estimator's registered state are the same after the block as before it"""
+    before = {k: _snap(v) for k, v in objs.items()}
+    yield
+    for k, v in objs.items():
+        after = _snap(v)
+        if after != before[k]:
+            which = k
+            if isinstance(after, dict):
+                which = k + "." + ",".join(a for a in after if after[a] != before[k].get(a))
+            raise Violation(f"{label}:modified:{which}", f"the call modified {which} (an argument of the caller / the registered state of the estimator)")
